@@ -8,14 +8,17 @@ PROPS = {
             fam("c07.matrix", 40, 1000000, seeds=1),
             # laws computed in Go; n >= 1000000 = exhaustive over the pool
             fam("c07.laws", 1500, 1000000, seeds=1),
+            # option bits rule text cannot set ($redirect, $replace, $cookie, $csp), set by the harness through reflection
+            fam("c07.priox", 1000, 15000),
         ],
         "defects": ["D6"],
         "rule": "c07.prio: ordered pairs over the 2304-rule feature pool + extras + generated rules (incl. a,a and rule vs rule+modifier); "
                 "c07.matrix: 48x48 blocks of the pool's IsHigherPriority matrix (thorough: the whole matrix); c07.laws: irreflexivity, "
                 "asymmetry, transitivity of > and of ties, add-modifier, selection maximality computed in Go; distinct by hash of the op input; "
                 "non-trivial when the answer is not F",
-        "explanation": "$redirect is read by IsHigherPriority but cannot be set from rule text on this tree; the theorems cover it, "
-                       "the correspondence cannot.",
+        "explanation": "$redirect is read by IsHigherPriority but cannot be set from rule text on this tree; the theorems cover it, and "
+                       "c07.priox compares the Go function with the model on rule objects whose option mask the harness patched through "
+                       "reflection (nothing in /repo is changed).",
     },
     "C08": {
         "families": [
@@ -53,6 +56,8 @@ PROPS = {
             fam("c06.result", 1500, 25000),
             fam("c06.dnsbasic", 1500, 25000),
             fam("c06.engine", 1000, 15000),
+            # $replace/$cookie/$csp/$redirect bits set by the harness through reflection: go vs MODEL only
+            fam("c06.resultx", 1000, 15000),
         ],
         "defects": ["D5"],
         "rule": "multisets (size 0-6 rules, 0-3 source rules, with badfilter twins) over a pool realising all combinations of {exception, "
@@ -63,6 +68,8 @@ PROPS = {
                 "MatchAll returned); thorough adds all singletons and all (rule, source rule) / (rule, rule) pairs of the pool; "
                 "distinct by hash of the op input; non-trivial when the answer is not none",
         "explanation": "$replace/$cookie/$csp cannot be set from rule text on this tree: the switch arms for them and the $replace early "
-                       "return are covered by the theorems (c06_web_all, c06_dns_all) but not by the correspondence.",
+                       "return are covered by the theorems (c06_web_all, c06_dns_all) and compared with the MODEL only (c06.resultx, option "
+                       "masks patched by the harness through reflection): with an effective $replace rule the code returns nil whatever "
+                       "else matches, which is not the documented precedence, so c06_web/c06_dns carry the hypothesis 'no $replace bit'.",
     },
 }
